@@ -121,7 +121,7 @@ def random_cfg(rng, big):
     elif kind == "cutoff":
         cfg["wl"] = rng.randint(1, min(60, n + 1))
         hi = max(0, n - fh[-1] + rng.choice([-1, 0, 0, 1]))
-        cfg["cuts"] = sorted(rng.sample(range(0, hi + 1), min(hi + 1, rng.randint(1, 5))))
+        cfg["cuts"] = rng.sample(range(0, hi + 1), min(hi + 1, rng.randint(1, 5)))  # any order
     elif kind == "tts_size":
         def s():
             r = rng.random()
